@@ -461,10 +461,18 @@ def run(prop, tier, seed):
             for mode in ([False, True] if "att" in p["kinds"] else [False]):
                 b.flush()
                 b.force_batch = mode
+                # every attack history is followed by EVERY single next duty of the bounded domain ("any continuation"): one lane per
+                # continuation, so that what the attack left behind in the database is probed from all sides (and, in batch mode,
+                # the lanes' steps form batches)
+                follow = []
+                if "att" in p["kinds"]:
+                    follow += [dict(op="att", s=s_, t=t_, root="B", dom="att") for s_ in range(maxi + 1) for t_ in range(maxi + 1)]
+                if "prop" in p["kinds"]:
+                    follow += [dict(op="prop", slot=x_, root="B", dom="prop") for x_ in range(maxi + 1)]
                 for a in attacks:
                     b.add_history(None, [dict(x) for x in a["hist"]], None, batchable=True)
-                    if mode:
-                        b.add_history(None, [dict(x) for x in a["hist"]], None, batchable=True)   # a second lane so that a batch forms
+                    for f in follow:
+                        b.add_history(None, [dict(x) for x in a["hist"]] + [dict(f)], None, batchable=True)
                 b.flush()
             b.force_batch = None
             builders.append(b)
